@@ -6,6 +6,7 @@ HEM = "rpylib/model/levymodel/mixed/hem.py"
 MERTON = "rpylib/model/levymodel/mixed/merton.py"
 VG = "rpylib/model/levymodel/purejump/variancegamma.py"
 CGMY = "rpylib/model/levymodel/purejump/cgmy.py"
+BSF = "rpylib/model/levymodel/mixed/blackscholes.py"
 
 X = [("x", "Q")]
 VX = [("value", "Q"), ("x", "Q")]
@@ -23,6 +24,11 @@ def guards(file, cls, prefix, fields):
     return {"kind": "class_guards", "file": file, "py": cls, "prefix": prefix, "fields": fields, "guards": GUARDS}
 
 
+def stored(file, cls, prefix, prim, der):
+    """the complete list of attributes the class stores, derived from the source (fail closed on anything else)"""
+    return {"kind": "init_fields", "file": file, "py": cls, "prefix": prefix, "prim": prim, "der": der}
+
+
 HEM_ARGS = [("sigma", "Q"), ("p", "Q"), ("eta1", "Q"), ("eta2", "Q"), ("intensity", "Q")]
 VG_ARGS = [("sigma", "Q"), ("nu", "Q"), ("theta", "Q")]
 CGMY_ARGS = [("c", "Q"), ("g", "Q"), ("m", "Q"), ("y", "Q")]
@@ -32,9 +38,9 @@ def derived(file, cls, prefix, args, fields):
     out = []
     names = [n for n, _ in args]
     for f in fields:
-        out.append({"file": file, "py": f"{cls}.__init__", "coq": f"{prefix}_init{f}", "pyargs": names, "args": args, "ret": "Q",
+        out.append({"file": file, "py": f"{cls}.__init__", "coq": f"{prefix}_init_{f.lstrip('_')}", "pyargs": names, "args": args, "ret": "Q",
                     "attr_tail": f"self.{f}"})
-        out.append({"file": file, "py": f"{cls}.initialisation", "coq": f"{prefix}_reinit{f}", "pyargs": [], "args": args, "ret": "Q",
+        out.append({"file": file, "py": f"{cls}.initialisation", "coq": f"{prefix}_reinit_{f.lstrip('_')}", "pyargs": [], "args": args, "ret": "Q",
                     "attr_tail": f"self.{f}", "attrs": {f"self.{n}": n for n in names}})
     return out
 
@@ -55,9 +61,16 @@ SPECS = {
             guards(MERTON, "MertonParameters", "merton_guard_", ["sigma", "mu_j", "sigma_j", "intensity"]),
             guards(VG, "VGParameters", "vg_guard_", ["sigma", "nu", "theta"]),
             guards(CGMY, "CGMYParameters", "cgmy_guard_", ["c", "g", "m", "y"]),
+            guards(BSF, "BlackScholesParameters", "bs_guard_", ["sigma"]),
+            stored(HEM, "HEMParameters", "hem_", ["sigma", "p", "eta1", "eta2", "intensity"], ["_xi"]),
+            stored(MERTON, "MertonParameters", "merton_", ["sigma", "mu_j", "sigma_j", "intensity"], []),
+            stored(VG, "VGParameters", "vg_", ["sigma", "nu", "theta"], ["_c", "_lambda_p", "_lambda_m"]),
+            stored(CGMY, "CGMYParameters", "cgmy_", ["c", "g", "m", "y"], ["_CGammamY", "_MpowerY", "_GpowerY"]),
+            stored(BSF, "BlackScholesParameters", "bs_", ["sigma"], ["variance"]),
         ]
         + derived(HEM, "HEMParameters", "hem", HEM_ARGS, ["_xi"])
         + derived(VG, "VGParameters", "vg", VG_ARGS, ["_c", "_lambda_p", "_lambda_m"])
-        + derived(CGMY, "CGMYParameters", "cgmy", CGMY_ARGS, ["_CGammamY", "_MpowerY", "_GpowerY"]),
+        + derived(CGMY, "CGMYParameters", "cgmy", CGMY_ARGS, ["_CGammamY", "_MpowerY", "_GpowerY"])
+        + derived(BSF, "BlackScholesParameters", "bs", [("sigma", "Q")], ["variance"]),
     },
 }
